@@ -322,6 +322,10 @@ class Client:
 
         :param text: the response to parse
         """
+        if text is None:
+            self.errcode = b""
+            self.errmsg = b""
+            return
         m = self.__size_expr.match(text)
         if m is not None:
             self.errcode = b""
